@@ -1,0 +1,16 @@
+//go:build verif && !no_workceptor
+
+package workceptor
+
+// VerifWatcherFactory, when set by the verification harness, supplies the watcher used by work units
+// that are created without an explicit one (fsnotify's reader goroutine cannot run inside a
+// testing/synctest bubble).
+var VerifWatcherFactory func() WatcherWrapper
+
+func verifWatcher() WatcherWrapper {
+	if VerifWatcherFactory != nil {
+		return VerifWatcherFactory()
+	}
+
+	return nil
+}
